@@ -260,6 +260,22 @@ func runC04(c *eng.Ctx) {
 	if fn := c.NeedFunc("weed/storage", "(*Volume).makeupDiff"); fn != nil {
 		revEq := eng.Cmp(func(v ssa.Value) bool { return eng.MentionsCall(v, "weed/storage.fetchCompactRevisionFromDatFile") }, func(v ssa.Value) bool { return eng.IsField(v, "Volume.lastCompactRevision") }, token.EQL)
 		returnsNonNilErr(c, "ORDER-commit", "revision-mismatch-aborts", fn, startsOf(eng.FailEdges(fn, revEq)), "a data file that was compacted by someone else meanwhile aborts the commit")
+		// the compacted file must be exactly one revision ahead of the file it was made from
+		nextRev := func(cond ssa.Value) (bool, bool) {
+			b, ok := cond.(*ssa.BinOp)
+			if !ok || (b.Op != token.EQL && b.Op != token.NEQ) {
+				return false, false
+			}
+			inc, isInc := b.X.(*ssa.BinOp)
+			if !isInc || inc.Op != token.ADD || !eng.MentionsCall(inc.X, "weed/storage.fetchCompactRevisionFromDatFile") || !eng.MentionsCall(b.Y, "weed/storage.fetchCompactRevisionFromDatFile") {
+				return false, false
+			}
+			if k, isK := eng.ConstInt(inc.Y); !isK || k != 1 {
+				return false, false
+			}
+			return true, b.Op == token.EQL
+		}
+		returnsNonNilErr(c, "ORDER-commit", "new-file-is-next-revision", fn, startsOf(eng.FailEdges(fn, nextRev)), "changes are replayed only onto a compacted file that is exactly one revision ahead of the old one")
 		// entries newer than the snapshot are the ones replayed: the loop bound mentions lastCompactIndexOffset
 		bound := false
 		for _, b := range fn.Blocks {
